@@ -685,6 +685,15 @@ def rule_q5(ctx, facts):
     ev = evaluator(b)
     loads = [c for c in b.calls if is_std_atomic(c) == "load" and CNT in receiver_field(b, c, 0)]
     forms = ev.def_forms(0)
+    # a returned local with several definitions (`match r { Ok(t) => t, Err(_) => 0 }` once `unwrap_or` is expanded): judged per definition
+    for _ in range(3):
+        out = []
+        for pt, f in forms:
+            if f is not TOP and f.c == 0 and len(f.terms) == 1 and list(f.terms.values())[0] == 1 and list(f.terms)[0][0] == "phi":
+                out += ev.def_forms(list(f.terms)[0][1])
+            else:
+                out.append((pt, f))
+        forms = out
     ok = bool(loads) and bool(forms)
     why = []
 
@@ -726,6 +735,17 @@ def rule_q5(ctx, facts):
                 # 0 only where the counter was seen to be <= 0 (any spelling of the comparison)
                 from .affine import le_at
                 g = any(le_at(b, pt, Aff.sym(("call", l.b)), 0) is not None for l in loads)
+                if not g:
+                    # ... or on the Err arm of `usize::try_from(counter)` (the conversion fails exactly for negative values)
+                    from .analysis import cond_of as _cond_of
+                    for blk2 in range(len(b.blocks)):
+                        cd2 = _cond_of(b, blk2)
+                        if cd2 and cd2["kind"] in ("is_ok", "is_err") and cd2.get("arg") is not None:
+                            srcs = [x for x in flow(b).call_roots(cd2["arg"]) if x is not None]
+                            if len(srcs) == 1 and callee_str(srcs[0]).rsplit("::", 1)[-1] in ("try_from", "try_into") and is_counter(srcs[0].args[0]):
+                                err_edge = (blk2, cd2["false"] if cd2["kind"] == "is_ok" else cd2["true"])
+                                if dominated_by_edge(b, Point(pt[0], pt[1]), [err_edge]):
+                                    g = True
                 if not g:
                     ok = False
                     why.append("returns 0 on a path where the counter was not seen to be <= 0")
